@@ -288,6 +288,11 @@ static std::string short_function(std::string f)
 		else if (f[i] == '>') depth--;
 		else if (!depth) o += f[i];
 	}
+	{
+		const std::string longname = "CallasDonnerhackeFinneyShawThayerRFC4880::";
+		size_t q;
+		while ((q = o.find(longname)) != std::string::npos) o.replace(q, longname.size(), "RFC4880::");
+	}
 	// drop a leading return type ("bool X::y")
 	size_t sp = o.rfind(' ');
 	if (sp != std::string::npos) o = o.substr(sp + 1);
@@ -806,6 +811,7 @@ struct Catalogue {
 					emit(oid + ":set00", "byte-set", t);
 					t[o] = (char)0xff;
 					emit(oid + ":setff", "byte-set", t);
+					if (!thorough) continue;
 					t[o] = (char)0x7f;
 					emit(oid + ":set7f", "byte-set", t);
 					t[o] = (char)(seed[o] + 1);
@@ -822,7 +828,8 @@ struct Catalogue {
 
 // ------------------------------------------------------------------------------------------------ target runner
 struct Target {
-	std::string name;                                   // finding keys: c12/<name>/...
+	std::string name;                                   // target name (case ids, counters)
+	std::string keyname;                                // finding keys: c12/<keyname or name>/<kind>@<site>
 	std::string seedname;
 	std::string seed;                                   // valid input (must be ACCEPTED unmutated unless expect_accept is false)
 	bool expect_accept;
@@ -885,7 +892,7 @@ struct Runner {
 			R.sample(caseid, "class=" + cls + " outcome=" + (r.violation() ? r.vkind : outcome_name(r)) + " input=" + printable(input, 120));
 		if (!r.violation())
 			return;
-		std::string key = r.key(T.name);
+		std::string key = r.key(T.keyname.empty() ? T.name : T.keyname);
 		R.counters["viol:" + key]++;
 		unsigned &n = viol_emitted[key];
 		if (n++ < per_key)
